@@ -35,6 +35,14 @@ package fix
 //@   method Set(d interface{}) (err error):
 //@     modifies self.*
 //@     ensures[C01,C17] imp(istype(self, *String) && istype(d, string), err == nil && self.(*String).valid && self.(*String).value == unbox_string(d))
+//@     ensures[C17] imp(istype(self, *Int) && istype(d, int), err == nil && self.(*Int).valid && self.(*Int).value == unbox_int(d))
+//@     ensures[C17] imp(istype(self, *Uint) && istype(d, uint64), err == nil && self.(*Uint).valid && self.(*Uint).value == unbox_int(d))
+//@     ensures[C17] imp(istype(self, *Float) && istype(d, float64), err == nil && self.(*Float).valid && self.(*Float).value == unbox_int(d))
+//@     ensures[C17] imp(istype(self, *Time) && istype(d, time.Time), err == nil && self.(*Time).valid && self.(*Time).value == unbox_int(d))
+//@     ensures[C17] imp(istype(self, *Bool) && istype(d, bool), err == nil && self.(*Bool).valid && self.(*Bool).value == unbox_bool(d))
+//@     ensures[C17] imp(istype(self, *Raw) && istype(d, []byte), err == nil && self.(*Raw).value == unbox_bytes(d))
+//@     ensures[C17] imp(d == nil && !istype(self, *Raw), nullV(self))
+//@     reveal nullV
 //@   method IsNull() (res bool):
 //@     pure
 //@     ensures[C17,C01] res == nullV(self)
@@ -216,3 +224,19 @@ package fix
 //@   ensures[C01] @checksum c == digits3(bsum(cat(msgHead(msg), T, SOH)) % 256)
 //@   ensures[C01] @tail len(T) == optLen(wireComp(msg.header)) + optLen(wireItemsB(msg.body)) && (T == "" || code(T, 0) == 1)
 //@   lemma bsum_cat(cat(msgHead(msg), T), SOH); bsum_snoc(SOH, 0); bsum_empty(); wireV_int(msg.bodyLength.Value); wireV_string(msg.checkSum.Value)
+
+// ---- value constructors and setters populate a value (C17) -------------------------
+//@ func NewString(v string) (res *String)
+//@   ensures[C17] res != nil && res.valid && res.value == v
+//@ func NewInt(value int) (res *Int)
+//@   ensures[C17] res != nil && res.valid && res.value == value
+//@ func NewUint(value uint64) (res *Uint)
+//@   ensures[C17] res != nil && res.valid && res.value == value
+//@ func NewFloat(value float64) (res *Float)
+//@   ensures[C17] res != nil && res.valid && res.value == value && isnil(res.source)
+//@ func NewTime(value time.Time) (res *Time)
+//@   ensures[C17] res != nil && res.valid && res.value == value
+//@ func NewRaw(v []byte) (res *Raw)
+//@   ensures[C17] res != nil && res.value == v
+//@ func NewKeyValue(key string, value Value) (res *KeyValue)
+//@   inline
